@@ -385,6 +385,7 @@ pub fn baseline(seed: u64, opts: &GenOpts) -> (SupplyTrace, Plan) {
         via_symlink: None,
         mem_sigdup: vec![],
         in_place: false,
+        read_eio: None,
     };
     (t, Plan { owners, funcs, outsiders, now: now.min(exp) })
 }
